@@ -88,10 +88,18 @@ class Indentation(afmformats.AFMForceDistance):
             self._rating = None
             # Apply preprocessing
             # (This will call `AFMData.reset_data` on self)
-            details = preproc.apply(apret=self,
-                                    identifiers=preprocessing,
-                                    options=options,
-                                    ret_details=ret_details)
+            try:
+                details = preproc.apply(apret=self,
+                                        identifiers=preprocessing,
+                                        options=options,
+                                        ret_details=ret_details)
+            except BaseException:
+                # Do not remember a preprocessing pipeline that failed,
+                # otherwise the same request would be skipped next time.
+                fp.pop("preprocessing", None)
+                fp.pop("preprocessing_options", None)
+                self._preprocessing_details = {}
+                raise
             self._preprocessing_details = details
             # Check availability of axes
             for ax in ["x_axis", "y_axis"]:
